@@ -113,7 +113,7 @@ def find_member(ctx, top, stack0):
     return None
 
 
-def check_case(res, base, M, ctx, defMode, rng=None):
+def check_case(res, base, M, ctx, defMode, rng=None, chunk=0):
     T, mk = in_context(ctx, M)
     if not U.is_legal(T):
         res.see('skipped:illegal-context')
@@ -130,21 +130,43 @@ def check_case(res, base, M, ctx, defMode, rng=None):
     while t[0] == 'tag':
         depth += 1
         t = t[4]
-    case = ('c13', base, M, ctx, defMode, mv)
+    case = ('c13', base, M, ctx, defMode, mv, chunk)
     feats = set(bt.feats) | {'ctx:' + ctx, 'depth:%d' % depth}
+    if chunk:
+        feats.add('chunked')
+        res.see('chunked-cases')
     if not defMode:
         feats.add('indefinite')
     res.case(U.case_hash(M, ctx, defMode), depth >= 1)
     res.see('stacks:depth=%d' % depth)
     res.see('ctx:' + ctx)
     res.see('base:' + base[0])
-    out = C.encode_monitored(res, 'ber', ber_encoder.encode, bt.obj, dict(defMode=defMode), T, v, 'BER', defMode, 0,
-                             feats, C.enc_case(T, v, 'BER', defMode, 0))
+    out = C.encode_monitored(res, 'ber', ber_encoder.encode, bt.obj, dict(defMode=defMode, maxChunkSize=chunk), T, v,
+                             'BER', defMode, chunk, feats, C.enc_case(T, v, 'BER', defMode, chunk))
     if out is None:
         return
     e, data, used = out
     # (a) identifier octets on the wire == the type's tags, outermost first
     stack, B_ = U.tag_stack(M, mv)
+    if chunk and stack and B_[0] in U.STRINGISH:
+        # a string longer than the chunk size goes out as a constructed encoding of fragments: "constructed contents"
+        bv = mv
+        tt = M
+        while tt[0] in ('tag', 'choice'):
+            if tt[0] == 'tag':
+                tt = tt[4]
+            else:
+                tt, bv = dict(tt[1])[bv[0]], bv[1]
+        if B_[0] == 'bits':
+            split = bv[0] > chunk * 8
+        elif B_[0] == 'octs':
+            split = len(bv) > chunk
+        else:
+            kinds = U.CHAR_KINDS if B_[0] == 'char' else U.USEFUL_KINDS
+            split = len(bv.encode(kinds[B_[1]][1])) > chunk
+        if split:
+            stack = stack[:-1] + [stack[-1][:2] + (True,)]
+            res.see('chunked-cases-with-constructed-contents')
     try:
         top = R.parse_one(data, 0)
     except R.RefError as ex:
@@ -186,7 +208,7 @@ def check_case(res, base, M, ctx, defMode, rng=None):
         except Exception:
             res.see('perturbation-skipped:unbuildable')
             continue
-        pcase = ('c13p', base, M, ctx, defMode, mv, M2)
+        pcase = ('c13p', base, M, ctx, defMode, mv, M2, chunk)
         try:
             r = ber_decoder.decode(data, asn1Spec=s2)
             res.witness('perturbed-type-accepted', feats | {'perturbed-level:%d' % lvl}, pcase,
@@ -250,7 +272,8 @@ def run_shard(shard, tier, seed):
         if U.base_of(M)[0] == 'any' and ctx == 'seq':
             ctx = 'top'
         try:
-            check_case(res, base, M, ctx, rng.random() < 0.6, rng)
+            chunk = rng.choice([0, 0, 1, 2, 3]) if U.base_of(M)[0] in U.STRINGISH else 0
+            check_case(res, base, M, ctx, rng.random() < 0.6, rng, chunk)
             if i % 4 == 0:
                 check_algebra(res, rng)
         except Exception:
@@ -275,7 +298,8 @@ def replay(case):
         orig = U.gen_value
         try:
             U.gen_value = lambda rng, T, o, small=False, any_maker=None: mv
-            check_case(res, base, M, ctx, defMode)
+            chunk = case[-1] if isinstance(case[-1], int) and not isinstance(case[-1], bool) and len(case) > (6 if case[0] == 'c13' else 7) else 0
+            check_case(res, base, M, ctx, defMode, chunk=chunk)
         finally:
             U.gen_value = orig
     elif case[0] == 'c13-algebra':
